@@ -415,7 +415,7 @@ def run_job(plan, j, tier):
             continue
         R.oblig.append(ob)
         if st == 'FAILURE':
-            if ('.unwind.' in prop and '/include/c++/' in ob['file']) or any(m in desc for m in MODEL_LIMIT) or prop.startswith('no-body.') or '.no-body.' in prop or prop.startswith(('vf_memmove.unwind', 'vf_memset.unwind', 'vf_wmem', 'vf_wcslen.unwind')):
+            if ('.unwind.' in prop and ('/include/c++/' in ob['file'] or (ob['file'].startswith(VERIF) and ob['file'].endswith(('.c', '.h'))))) or any(m in desc for m in MODEL_LIMIT) or prop.startswith('no-body.') or '.no-body.' in prop or prop.startswith(('vf_memmove.unwind', 'vf_memset.unwind', 'vf_wmem', 'vf_wcslen.unwind')):
                 infra.append(ob)
             else:
                 fails.append(ob)
